@@ -19,6 +19,7 @@ structure Alg (L R Q V : Type) where
   q0 : Q
   qstep : Q → L → Q
   qout : Q → L → R → V                     -- spec verdict before `x`, given the promise of the text after `x`
+  isB : V → Bool                           -- which verdicts are reported boundaries
   showV : V → String
 
 /-! ## the four instances -/
@@ -28,7 +29,7 @@ def b2s (b : Bool) : String := if b then "1" else "0"
 def algG : Alg Nat Unit GB.Q Bool :=
   { name := "gr", rhoEnd := (), laStep := fun _ _ => (),
     trans := fun s x _ => transG s x,
-    q0 := GB.q0, qstep := GB.qstep, qout := fun q x _ => GB.qout q x, showV := b2s }
+    q0 := GB.q0, qstep := GB.qstep, qout := fun q x _ => GB.qout q x, isB := id, showV := b2s }
 
 /-- a word letter: the class code of the word table and Extended_Pictographic per the grapheme table -/
 structure WbL where
@@ -58,7 +59,7 @@ def algW : Alg WbL Far WB.Q Bool :=
   { name := "wb", rhoEnd := .other,
     laStep := fun x rho => if wbIgnorable x.prop then rho else Far.ofProp x.prop,
     trans := fun s x rho => transWK s x.prop x.gEP rho.key,
-    q0 := WB.q0, qstep := fun q x => WB.qstep q x.ch, qout := fun q x rho => WB.qout q x.ch rho.spec, showV := b2s }
+    q0 := WB.q0, qstep := fun q x => WB.qstep q x.ch, qout := fun q x rho => WB.qout q x.ch rho.spec, isB := id, showV := b2s }
 
 /-- a sentence letter is the class code of the sentence table -/
 abbrev SbL := Nat
@@ -75,7 +76,7 @@ def algS : Alg SbL SbR SB.Q Bool :=
        if SB.isStop (SB.ofProp x) then SB.ofProp x == SB.C.lower else rho.2),
     trans := fun s x rho => transS s x (if sbStopper x then x == prLower else rho.1),
     q0 := SB.q0, qstep := fun q x => SB.qstep q (SB.ofProp x),
-    qout := fun q x rho => SB.qout q (SB.ofProp x) rho.2, showV := b2s }
+    qout := fun q x rho => SB.qout q (SB.ofProp x) rho.2, isB := id, showV := b2s }
 
 instance : Hashable LbIn := ⟨fun x => mixHash (hash x.prop) (mixHash (hash x.eaFWH) (hash x.extPicCn))⟩
 
@@ -92,7 +93,8 @@ def algL : Alg LbIn LbR LB.Q LB.V :=
     laStep := fun x rho => (if x.prop == prCM || x.prop == prZWJ then rho.1 else x.prop == prNU,
       if LB.isCMZ x.ch.cls then rho.2 else x.ch.cls == LB.C.NU),
     trans := fun s x rho => let t := transL s x rho.1; (t.1, lvOfNat t.2),
-    q0 := LB.q0, qstep := fun q x => LB.qstep q x.ch, qout := fun q x rho => LB.qout q x.ch rho.2, showV := showLV }
+    q0 := LB.q0, qstep := fun q x => LB.qstep q x.ch, qout := fun q x rho => LB.qout q x.ch rho.2,
+    isB := fun v => v != LB.V.no, showV := showLV }
 
 
 end Uniseg.Auto
